@@ -1006,3 +1006,45 @@ class quiet_all:
     def __exit__(self, *a):
         self._e.__exit__(*a)
         self._w.__exit__(*a)
+
+
+def short_lived_twin(model, method):
+    """An earlier, short-lived problem with the same shape and names whose ADDITIVE constants differ: built, solved once, dropped;
+    then optyx's documented clear_degree_cache() and a collection, right before the judged problem is built (its objects then
+    tend to be allocated at the addresses just freed).  Whatever optyx remembers of the twin by id() must not reach the
+    judged problem.  Returns True if a twin was built."""
+    import copy
+    import gc
+    m2 = copy.deepcopy(model)
+    changed = [0]
+
+    def fix(node):
+        if not isinstance(node, list):
+            return
+        for c in node:
+            fix(c)
+        if len(node) == 4 and node[0] == "bin" and node[1] in ("+", "-"):
+            for k in (2, 3):
+                c = node[k]
+                if isinstance(c, list) and len(c) == 3 and c[0] == "const" and isinstance(c[2], (int, float)) and not isinstance(c[2], bool):
+                    c[2] = c[2] + (1 if isinstance(c[2], int) else 1.25)
+                    changed[0] += 1
+    fix(m2["objective"])
+    if not changed[0]:
+        return False
+    for _ in range(4):
+        # several generations: which freed block the judged problem's objects land on depends on the allocation pattern
+        try:
+            with quiet_all():
+                P2, b2, built2 = build_problem(m2)
+                P2.solve(method=method)
+        except Exception:
+            pass
+        P2 = b2 = built2 = None
+        try:
+            from optyx.analysis import clear_degree_cache
+            clear_degree_cache()
+        except Exception:
+            pass
+        gc.collect()
+    return True
